@@ -78,6 +78,38 @@ def clean(q):
 class TU:
     def __init__(self):
         self.records, self.typedefs, self.fns, self.enums, self.text = {}, {}, {}, {}, b''
+        self.tables = {}
+
+    def const_table(self, d):
+        """(values, element type) of a `const` array whose initialiser is a list of integer constant expressions, else None"""
+        import c2lean
+        t = d.get('type', {})
+        q = t.get('desugaredQualType', t.get('qualType', ''))
+        m = re.fullmatch(r'(.*)\[(\d+)\]', q.strip())
+        if not m or 'const' not in q:
+            return None
+        try:
+            et = self.vtype_q(m.group(1))
+        except Unsupported:
+            return None
+        init = [c for c in d.get('inner', []) if c.get('kind') == 'InitListExpr']
+        if not init or et.ptr:
+            return None
+        vals = []
+        try:
+            for e in init[0].get('inner', []):
+                if e.get('kind') == 'ImplicitValueInitExpr':
+                    vals.append(0)
+                else:
+                    vals.append(c2lean.const_eval(e))
+        except (Unsupported, KeyError, ValueError):
+            return None
+        n = int(m.group(2))
+        filler = init[0].get('array_filler')
+        vals += [0] * (n - len(vals))
+        if len(vals) != n or n == 0 or n > 1024:
+            return None
+        return (vals, et)
 
     def resolve(self, q):
         q = clean(q)
@@ -153,6 +185,7 @@ class Fn:
     def __init__(self, tu, decl, fuel=2, done=None, externs=()):
         self.tu, self.decl, self.fuel = tu, decl, fuel
         self.externs, self.nsite, self.extra_params, self.extra_outs = set(externs), {}, [], []
+        self.tables = {}
         self.lets, self.n = [], 0
         self.uses_mem = False
         self.done_fns = done or {}       # name -> signature info of already translated functions
@@ -213,6 +246,10 @@ class Fn:
             return ('mem', self.ev(n['inner'][0], env), self.tu.vtype(n), pt)
         if k == 'ArraySubscriptExpr':
             b, i = n['inner']
+            sb = strip(b)
+            nm = sb.get('referencedDecl', {}).get('name') if sb.get('kind') == 'DeclRefExpr' else None
+            if nm is not None and nm not in env and (nm in self.tables or nm in self.tu.tables):
+                return ('table', nm, self.ev(i, env), self.tu.vtype(i))
             bt, it = self.tu.vtype(b), self.tu.vtype(i)
             if not bt.ptr:
                 b, i, bt, it = i, b, it, bt
@@ -235,6 +272,17 @@ class Fn:
         self.assign(env, '$mem', f'({f} {env["$mem"]} {addr} {v})')
 
     def read_lv(self, lv, env):
+        if lv[0] == 'table':
+            vals, et = self.tables.get(lv[1]) or self.tu.tables[lv[1]]
+            idx, it = lv[2], lv[3]
+            idx = self.bind('idx', idx)
+            # an index outside the table is undefined behaviour
+            self.flag(env, '$ub', f'(BitVec.ule {lit(len(vals), it.w)} {idx})' if not it.s else
+                      f'(BitVec.slt {idx} {lit(0, it.w)} || BitVec.sle {lit(len(vals), it.w)} {idx})')
+            e = lit(vals[-1], et.w)
+            for j in range(len(vals) - 2, -1, -1):
+                e = f'(if {idx} == {lit(j, it.w)} then {lit(vals[j], et.w)} else {e})'
+            return self.bind('tbl', e)
         if lv[0] == 'var':
             v = env[lv[1]]
             if v == UNINIT:
@@ -243,6 +291,8 @@ class Fn:
         return self.load(env, lv[1], lv[2])
 
     def write_lv(self, lv, env, v):
+        if lv[0] == 'table':
+            raise Unsupported('store into a constant table')
         if lv[0] == 'var':
             self.assign(env, lv[1], v)
             return env[lv[1]]
@@ -694,6 +744,65 @@ class Fn:
         self.in_loop -= 1
         env['$exit'] = outer
 
+    def switch(self, n, env):
+        """`switch` whose `break`s are top-level statements of the body (fall-through allowed), as in c2lean.py"""
+        import c2lean
+        d, body = n['inner'][0], n['inner'][-1]
+        dv = self.bind('sw', self.ev(d, env))
+        dw = self.tu.vtype(d).w
+        segs = []
+        def add(stmt, labels):
+            if stmt['kind'] == 'CaseStmt':
+                add(stmt['inner'][-1], labels + [lit(c2lean.const_eval(stmt['inner'][0]), dw)])
+            elif stmt['kind'] == 'DefaultStmt':
+                add(stmt['inner'][-1], labels + ['default'])
+            else:
+                if labels or not segs:
+                    segs.append((labels, []))
+                segs[-1][1].append(stmt)
+        for st in body.get('inner', []):
+            add(st, [])
+        paths = []
+        for i, (labels, _) in enumerate(segs):
+            if not labels:
+                continue
+            stmts = []
+            for _, ss in segs[i:]:
+                brk = False
+                for st in ss:
+                    if st['kind'] == 'BreakStmt':
+                        brk = True
+                        break
+                    stmts.append(st)
+                if brk:
+                    break
+            paths.append((labels, stmts))
+        saved_loop = self.in_loop
+        self.in_loop = 0                     # a `break` nested deeper inside the switch body is outside the subset
+        path = env.get('$path', 'true')
+        # evaluate the paths in source order so that the call-site numbering of external calls is deterministic
+        done = []
+        for labels, stmts in paths:
+            e2 = dict(env)
+            if 'default' in labels:
+                others = [l for (ls, _) in paths for l in ls if l != 'default']
+                cond = self.bind('c', '(' + ' && '.join(f'{dv} != {l}' for l in others) + ')') if others else 'true'
+            else:
+                cond = self.bind('c', '(' + ' || '.join(f'{dv} == {l}' for l in labels) + ')')
+            e2['$path'] = cond if path == 'true' else f'({path} && {cond})'
+            for st in stmts:
+                self.ex(st, e2)
+            e2['$path'] = path
+            done.append((cond, e2))
+        self.in_loop = saved_loop
+        result = dict(env)                   # no label matched and no default
+        for cond, e2 in reversed(done):
+            merged = dict(env)
+            self.merge(merged, cond, e2, result)
+            result = merged
+        for key in list(result):
+            env[key] = result[key]
+
     def ex(self, n, env):
         k = n['kind']
         if k == 'CompoundStmt':
@@ -703,6 +812,10 @@ class Fn:
             for d in n['inner']:
                 if d.get('kind') != 'VarDecl':
                     raise Unsupported('declaration ' + str(d.get('kind')))
+                tbl = self.tu.const_table(d)
+                if tbl is not None:
+                    self.tables[d['name']] = tbl
+                    continue
                 if d.get('storageClass') in ('static', 'extern'):
                     raise Unsupported('static/extern local ' + d['name'] + ' (state that persists between calls)')
                 if d['name'] in env and self.in_loop == 0:
@@ -748,7 +861,9 @@ class Fn:
             env['$exit'] = 'true'
         elif k == 'NullStmt':
             pass
-        elif k in ('SwitchStmt', 'GotoStmt', 'ContinueStmt', 'LabelStmt'):
+        elif k == 'SwitchStmt':
+            self.switch(n, env)
+        elif k in ('GotoStmt', 'ContinueStmt', 'LabelStmt'):
             raise Unsupported('statement ' + k)
         else:
             self.ev(n, env)
@@ -878,6 +993,10 @@ def load(path, extra):
                         tu.records[c['name']] = pending[od['id']]
             if c['kind'] == 'FunctionDecl' and any(x['kind'] == 'CompoundStmt' for x in c.get('inner', [])):
                 tu.fns[c['name']] = c
+            if c['kind'] == 'VarDecl':
+                tb = tu.const_table(c)
+                if tb is not None:
+                    tu.tables[c['name']] = tb
         except (KeyError, TypeError, IndexError):
             continue
     for k, v in list(tu.typedefs.items()):
